@@ -20,6 +20,12 @@ open AV Prog Pub Val AV.Props.C16 AV.Props.C04
     | .delete k => if okDel k then some () else none
     | _ => some ()
 
+/-- not vacuous: a write the predicates do not accept is rejected -/
+example : (onlyMon (fun _ => false) (fun _ => false)).step () (.update (.str "x")) (.ok ()) = none := rfl
+example : (onlyMon (fun _ => true) (fun _ => false)).step () (.create (.str "x")) (.ok ()) = none := rfl
+example : (onlyMon (fun _ => false) (fun k => k == "a")).step () (.delete "b") (.ok ()) = none := rfl
+example : (onlyMon (fun _ => false) (fun k => k == "a")).step () (.delete "a") (.ok ()) = some () := rfl
+
 abbrev Ow (okUpd : J → Bool) (okDel : Iri → Bool) (p : Prog α) : Prop := SafeP (onlyMon okUpd okDel) () p (fun _ _ => True)
 
 def owQuiet (c : Call) : Prop := (∀ v, c ≠ .create v) ∧ (∀ v, c ≠ .update v) ∧ (∀ k, c ≠ .delete k)
